@@ -52,6 +52,10 @@ func c01Rules(p *core.Prog, r *core.Run) {
 	// application data flows: passthrough is direct and never bypasses buffered bytes
 	c05Direct(p, r, m, "C01.pipe")
 	c07Buffers(p, r, m, "C01.pipe.buffers")
+	// the connection NewConn hands over is usable in both directions: what the
+	// context watcher set on it is undone completely (a leftover write deadline
+	// makes the backend's first flight fail)
+	watcherRules(p, r, "C01.ctx")
 }
 
 // c01Accessors checks ServerName, ALPNProtos, ECHAccepted.
